@@ -49,7 +49,7 @@ import (
 type c06Op struct {
 	Data  string  `json:"data"`          // hex
 	Tag   string  `json:"tag"`           // hex, "-" = EmptyTag
-	At    string  `json:"at,omitempty"`  // "" (immediately) | "pre" | "post" | "expired"  (relative to the rotation deadline)
+	At    string  `json:"at,omitempty"`  // "" (immediately) | "pre" | "post" | "expired" (relative to the rotation deadline) | "gap" (pause of Frac × interval)
 	Frac  float64 `json:"frac,omitempty"` // position inside the chosen span
 	Clear bool    `json:"clear,omitempty"`
 }
@@ -129,6 +129,8 @@ func c06RunCache(c *core.Ctx, k c06Case) bool {
 			if hi > lo {
 				target = lo + time.Duration(op.Frac*float64(hi-lo))
 			}
+		case "gap": // a pause of Frac × interval after the previous call
+			target = now + time.Duration(op.Frac*float64(iv))
 		case "expired":
 			lo := exp + iv + c06Margin + 10*time.Millisecond
 			if lo < now {
@@ -409,6 +411,8 @@ func c06GenOps(c *core.Ctx, cap int, n int, timed bool) []c06Op {
 				op.At = "post"
 			case 4:
 				op.At = "expired"
+			case 5:
+				op.At = "gap"
 			}
 			op.Frac = float64(c.Rand.Intn(1000)) / 1000
 		}
@@ -533,6 +537,39 @@ func init() {
 					c.Sample(k)
 				}
 				timed = append(timed, k)
+			}
+			// targeted: one signature presented twice inside the bounds, the pauses and the number of
+			// other signatures in between spread over the whole allowed range (these are the histories
+			// on which a cache that forgets too early misses)
+			for i := 0; i < c.N(36, 240); i++ {
+				cap := 2 + c.Rand.Intn(4)
+				x := []byte{0xee, byte(i), byte(i >> 8)}
+				nOthers := c.Rand.Intn(cap) // < cap distinct others
+				total := 0.15 + 0.63*float64(c.Rand.Intn(1000))/1000 // whole pause as a fraction of the interval, ≤ 0.78 (234 of 300 ms)
+				if i%3 == 0 {
+					nOthers, total = 0, 0.70+0.08*float64(c.Rand.Intn(1000))/1000 // the longest allowed pause, nothing in between
+				}
+				var ops []c06Op
+				if c.Rand.Intn(2) == 0 { // some earlier traffic so that the generations are not empty
+					ops = append(ops, c06GenOps(c, cap, 3+c.Rand.Intn(6), true)...)
+				}
+				first := c06Op{Data: core.Hex(x), Tag: "-"}
+				switch i % 3 { // recorded just before the rotation deadline / just after it / wherever we are
+				case 0:
+					first.At, first.Frac = "pre", 1
+				case 1:
+					first.At, first.Frac = "post", 0
+				}
+				ops = append(ops, first)
+				parts := nOthers + 1
+				for j := 0; j < nOthers; j++ {
+					ops = append(ops, c06Op{Data: core.Hex([]byte{0xdd, byte(j), byte(i)}), Tag: "-", At: "gap", Frac: total / float64(parts)})
+					if c.Rand.Intn(3) == 0 { // the same other signature again: still one distinct signature
+						ops = append(ops, c06Op{Data: core.Hex([]byte{0xdd, byte(j), byte(i)}), Tag: "-"})
+					}
+				}
+				ops = append(ops, c06Op{Data: core.Hex(x), Tag: "-", At: "gap", Frac: total / float64(parts)})
+				timed = append(timed, c06Case{Kind: "cache", Cap: cap, IntervalMs: 300, Ops: ops})
 			}
 			var wg sync.WaitGroup
 			var discarded atomic.Int64
